@@ -102,4 +102,11 @@ def newScryptWallet (pw key salt iv : Bytes) (n p : Nat) : Bytes × Bytes :=
   let ct := Prim.aes128Ctr (dk.take 16) iv key
   (ct, generateMac ((dk.drop 16).take 16) ct)
 
+/-- the wallet file `newScryptWalletFileBytes` returns (as decoded fields), for the given random salt and IV -/
+def newScryptFile (pw key salt iv : Bytes) (n p : Nat) : KsFile :=
+  { commonErr := false, idNil := false, version := version3, kdf := kdfTypeScrypt, kdfErr := false,
+    cipher := cipherAES128ctr, ciphertext := (newScryptWallet pw key salt iv n p).1, iv := iv,
+    mac := (newScryptWallet pw key salt iv n p).2, salt := salt, n := n, r := defaultR, p := p, dklen := 32,
+    c := 0, prf := "" }
+
 end FFS.Model.Keystore
